@@ -48,6 +48,7 @@ package gabikeys
 //@   ensures complete: err == nil ==> result0 != nil && result0.P != nil && result0.Q != nil && result0.PPrime != nil && result0.QPrime != nil && result0.N != nil && result0.Order != nil
 //@   ensures[C18] length: err == nil && !demo ==> in(DefaultSystemParameters, bitlen(val(result0.N))) && val(result0.N) == prod(val(result0.P), val(result0.Q))
 //@   ensures[C18] safe: err == nil && !demo ==> val(result0.P) > 2 && isprime(val(result0.P)) && isprime(val(result0.P) / 2) && val(result0.Q) > 2 && isprime(val(result0.Q)) && isprime(val(result0.Q) / 2) && val(result0.PPrime) == (val(result0.P) - 1) / 2 && val(result0.QPrime) == (val(result0.Q) - 1) / 2
+//@   ensures[C18] distinct: err == nil && !demo ==> val(result0.P) != val(result0.Q)
 //@   mustfail canary: err != nil
 
 //@ func (*PrivateKey).parseRevocationKey
@@ -62,6 +63,7 @@ package gabikeys
 //@   requires privk != nil && privk.P != nil && privk.Q != nil && privk.PPrime != nil && privk.QPrime != nil
 //@   ensures consistent: err == nil ==> val(privk.PPrime) == (val(privk.P) - 1) / 2 && val(privk.QPrime) == (val(privk.Q) - 1) / 2
 //@   ensures safeprimes: err == nil ==> val(privk.P) > 2 && isprime(val(privk.P)) && isprime(val(privk.P) / 2) && val(privk.Q) > 2 && isprime(val(privk.Q)) && isprime(val(privk.Q) / 2)
+//@   ensures distinct: err == nil ==> val(privk.P) != val(privk.Q)
 //@   modifies nothing
 //@   mustfail canary: err != nil
 
